@@ -120,8 +120,12 @@ func runC01(c *Ctx) {
 	})
 	if c.Quick() {
 		parserModelCases(c, items, 6000)
+		gfmModelCases(c, items, 1500)
+		otherModelCases(c, items, 500)
 	} else {
 		parserModelCases(c, items, 60000)
+		gfmModelCases(c, items, 20000)
+		otherModelCases(c, items, 20000)
 	}
 	nw := runtime.NumCPU()
 	mdFull := make([][]goldmark.Markdown, nw)
